@@ -192,9 +192,9 @@ func ssGoodValue(r *Rng, i int) string {
 	case i == 0:
 		return goodNum(r)
 	case i <= 2:
-		return dec1(r.Range(-99999, 99999))
+		return dec1(r.Range(-9999, 9999))
 	case i == 3:
-		return dec2(r.Range(-999999, 999999))
+		return dec2(r.Range(-9999, 9999))
 	case i < 12:
 		return goodSNum(r)
 	default:
